@@ -1,5 +1,6 @@
 import RactorModel.Lemmas.Rpc
 import RactorModel.Lemmas.RpcGroups
+import RactorModel.Lemmas.RpcForward
 import RactorModel.Lemmas.CallResult
 
 /-!
@@ -327,6 +328,21 @@ theorem multi_call_step_request_order (s : S) (g : Nat) (t : Option Nat) (as : L
     ∃ k, (sendMulti s g t as).calls.map (·.callee) = s.calls.map (·.callee) ++ as.take k :=
   sendMulti_callees s g t as
 
+/-- (`call_and_forward` forwards EXACTLY once — every reachable state) `fwdlog` is the ghost record
+of every forward ever attempted (call, target, value, accepted-by-target); its entries are exactly
+the messages `deliverForwards` hands to the targets (`Rpc.deliverForwards_eq_log`). For every call
+`p`: the number of forwards made for `p` is 1 if `p` is a forward-call whose caller task got
+`Success`, and 0 otherwise (no forward on timeout / SenderError / for ordinary calls; never a
+second one) — and that one forward went to `p`'s own target and carried `p`'s own reply (which by
+`success_is_own_reply` is the value sent on `p`'s own port). -/
+theorem forward_exactly_once (ops : List Op) (p : Nat) (c : Call) (hc : (run ops).calls[p]? = some c) :
+    ((run ops).fwdlog.filter (fun e => e.1 == p)).length =
+      (if (c.forward.isSome && isSucc c.res) = true then 1 else 0) ∧
+    (∀ e ∈ (run ops).fwdlog, e.1 = p → c.forward = some e.2.1 ∧ c.res = some (.success e.2.2.1)) := by
+  refine ⟨(finv_run ops).once p c hc, fun e he hep => ?_⟩
+  subst hep
+  exact (finv_run ops).val e he c hc
+
 /-- `call_and_forward` forwards at most once per call: a call that already has its result
 never triggers another forward (`deliverForwards` only looks at calls that were waiting). -/
 theorem forward_only_on_transition (cs : List Call) (A : List Actor)
@@ -352,6 +368,17 @@ def exampleOps : List Op :=
 example : ((run exampleOps).calls.map (·.res)) =
     [some (.success 7), some (.success 42), some .senderError, some .timeout] := by decide
 example : ok (run exampleOps) = true := by decide
+
+/-- multi_call with mixed outcomes (reply / drop / timeout), one with a failing send, and
+call_and_forward: forwarded once, to a dead target (`false`), and not at all on timeout -/
+def exampleGroups : List Op :=
+  [.spawn, .spawn, .spawn, .mcall [0, 1, 2] (some 5), .handle 0 (.reply 11), .handle 1 .drop, .advance 5,
+   .exit 2, .mcall [0, 2, 1] none, .fcall 0 1 none, .fcall 0 2 none, .fcall 0 1 (some 2),
+   .handle 0 (.reply 7), .handle 0 (.reply 8), .handle 0 (.reply 9), .advance 2]
+example : groupResults (run exampleGroups) 0 = [some (.success 11), some .senderError, some .timeout] := by decide +kernel
+example : (run exampleGroups).mreqs = [[0, 1, 2], [0, 2, 1]] ∧ groupFailed (run exampleGroups) 1 = true := by decide +kernel
+example : (run exampleGroups).fwdlog = [(5, 1, 8, true), (6, 2, 9, false)] ∧
+    ((run exampleGroups).calls.map (·.res)).drop 5 = [some (.success 8), some (.success 9), some .timeout] := by decide +kernel
 
 /-- supervised callees: #0 keeps two ports in its state and stops gracefully — the callers keep
 waiting while the supervisor has the event queued, then stashed; the supervisor answers one
@@ -474,6 +501,7 @@ end C09
 #print axioms C09.multi_call_result_index
 #print axioms C09.multi_call_answered_by_deadline
 #print axioms C09.multi_call_step_request_order
+#print axioms C09.forward_exactly_once
 #print axioms C09.forward_only_on_transition
 #print axioms C09.callResult_flags_exactly_one
 #print axioms C09.callResult_unwrap
